@@ -8,7 +8,7 @@ from . import core
 from .core import cq_bool, cq_list, cq_nat
 
 THEOREMS = ["C02_safe_partial", "C02_head_well_moded", "C02_refuted_deferred", "C02_head_on_witness",
-            "C02_refuted_corrupt", "C02_lock_mutex", "C02_busy_only_on_upgrade", "C02_example"]
+            "C02_refuted_corrupt", "C02_refuted_split_lookup", "C02_lock_mutex", "C02_busy_only_on_upgrade", "C02_example"]
 
 KNOWN_TAG = "corrupt-db-concurrent-recovery"
 
@@ -481,7 +481,11 @@ def run_children(ctx, cases, workers=4):
 
 
 def run(ctx):
+    import time
+    tm = {}
+    t0 = time.time()
     core.check_props(ctx, "C02.v", THEOREMS)
+    tm["props"] = round(time.time() - t0, 1)
     fp, _n = core.fingerprint(core.REPO + "/src/pymoca/parser.py", {"parse", "_check_database_structure"})
     ctx.notes["source_fingerprint"] = {"parser.py:parse+_check_database_structure": fp}
 
@@ -491,21 +495,19 @@ def run(ctx):
         prog, kws = probe_program(core.REPO)
         gen = (core.HEADER + "From Coq Require Import List Bool Arith.\nImport ListNotations.\n"
                "From PV Require Import Lib.Lock Model.C02_conc.\n"
-               "Definition gen_prog : prog := %s.\n" % cq_list(prog))
+               "Definition gen_prog : prog := %s.\n"
+               "(* Tie_C02: the side condition of C02_safe_partial on the regenerated skeleton *)\n"
+               "Eval vm_compute in (side_ok gen_prog).\n"
+               "Eval vm_compute in (match ty gen_prog MClosed with Some MClosed => true | _ => false end).\n"
+               "Eval vm_compute in (Nat.eqb (size gen_prog) (size prog_head)).\n" % cq_list(prog))
         ok, out, err = core.coq_run(ctx, "Gen", gen)
         ctx.oblige("tie:T8-skeleton-compiles", ok, err[-800:])
         if ok:
             progname = "gen_prog"
-            tie = (core.HEADER + "From Coq Require Import List Bool Arith.\nImport ListNotations.\n"
-                   "From PV Require Import Lib.Lock Model.C02_conc.\nFrom Run%s Require Import Gen.\n"
-                   "Eval vm_compute in (side_ok gen_prog).\n"
-                   "Eval vm_compute in (match ty gen_prog MClosed with Some MClosed => true | _ => false end).\n"
-                   "Eval vm_compute in (Nat.eqb (size gen_prog) (size prog_head)).\n" % ctx.pid)
-            ok2, out2, err2 = core.coq_run(ctx, "Tie_C02", tie)
-            vals = core.coq_results(out2) if ok2 else []
+            vals = core.coq_results(out)
             ctx.oblige("tie:side_ok(regenerated skeleton): no write under a SHARED-only transaction, no remove "
-                       "outside the corruption handler, INSERT OR REPLACE", ok2 and vals[:2] == ["true", "true"],
-                       "%s %s" % (vals, err2[-500:]))
+                       "outside the corruption handler, INSERT OR REPLACE, no unpacked re-read of a cached row",
+                       vals[:2] == ["true", "true"], "%s" % (vals,))
             ctx.notes["skeleton_same_size_as_static_copy"] = vals[2:] == ["true"]
         kw_ok = bool(kws) and all(k.get("isolation_level") == "None" and
                                   ("timeout" not in k or _num(k["timeout"]) >= 5.0) for k in kws)
@@ -516,6 +518,7 @@ def run(ctx):
     except (ProbeError, KeyError, SyntaxError, IndexError) as e:
         ctx.oblige("tie:T8-skeleton-probe (fail closed)", False, repr(e))
 
+    tm["tie"] = round(time.time() - t0, 1)
     # ---- S3: cases ----
     n_rand = ctx.scaled(45, 1000)
     dcs = directed()
@@ -531,7 +534,9 @@ def run(ctx):
     results = run_children(ctx, sched_cases + lt, workers=4)
     lt_res = results[-1]
     sres = results[:-1]
+    tm["sched_children"] = round(time.time() - t0, 1)
     stress_res = core.run_child(ctx, "c02", stress, timeout=1500)
+    tm["stress"] = round(time.time() - t0, 1)
 
     # (ii) lock table
     locktable_check(ctx, lt_res if isinstance(lt_res, dict) else {})
@@ -568,6 +573,8 @@ def run(ctx):
         j = mism[0] if mism else [i for i, r in enumerate(sres) if "trace" not in r][0]
         core.violation(ctx, "correspondence-broken", {"input": sched_cases[j], "observed": sres[j]}, no_input=True)
 
+    tm["coq_cases"] = round(time.time() - t0, 1)
+    ctx.notes["phase_seconds_cumulative"] = tm
     # S4
     core.replay_known(ctx, lambda e: still_fails(ctx, e))
 
